@@ -35,24 +35,27 @@ maybe theorem tie_iter_new (s : Sys) (h : Inv s.buf) : Gen.Iter_new s = Iter.new
 
 maybe theorem tie_iter_over_range (sb eb : Bound) (s : Sys) (h : Inv s.buf) :
     Gen.Iter_over_range sb eb s = Iter.overRange sb eb s := by
-  simp only [Gen.Iter_over_range, Iter.overRange, bind_run, tie_translate_range_bounds sb eb s]
-  cases htr : translateRange sb eb s with
-  | mk r s1 => cases r with
-    | error p => rfl
-    | ok se =>
-      obtain ⟨st, en⟩ := se
-      have hs1 : s1 = s := by
-        have := translateRange_state sb eb s
-        rw [htr] at this
-        exact this
-      subst hs1
-      simp only [getBuf_bind, ite_run, bind_run, pure_run, tie_iter_empty, tie_iter_new s1 h, getBuf_run]
-      split
-      · rfl
-      · cases hn : Iter.new s1 with
-        | mk r2 s2 => cases r2 with
-          | error p => rfl
-          | ok it0 =>
-            simp only [tie_iter_advance_front_by, tie_iter_advance_back_by, liftE_bind]
+  first
+  | rfl      -- (a body outside the subset is *defined* as the model's function)
+  | (
+     simp only [Gen.Iter_over_range, Iter.overRange, bind_run, tie_translate_range_bounds sb eb s]
+     cases htr : translateRange sb eb s with
+     | mk r s1 => cases r with
+       | error p => rfl
+       | ok se =>
+         obtain ⟨st, en⟩ := se
+         have hs1 : s1 = s := by
+           have := translateRange_state sb eb s
+           rw [htr] at this
+           exact this
+         subst hs1
+         simp only [getBuf_bind, ite_run, bind_run, pure_run, tie_iter_empty, tie_iter_new s1 h, getBuf_run]
+         split
+         · rfl
+         · cases hn : Iter.new s1 with
+           | mk r2 s2 => cases r2 with
+             | error p => rfl
+             | ok it0 =>
+               simp only [tie_iter_advance_front_by, tie_iter_advance_back_by, liftE_bind])
 
 end CircBuf
